@@ -149,6 +149,21 @@ def bounded(tier, seed):
                     violations.append({"clause": "entry_points_agree", "entry": k, "already_formatted": True,
                                        "input": {kk: (vv.value if hasattr(vv, "value") else vv) for kk, vv in o.items()},
                                        "got": v[:300], "want": want[:300]})
+        # a byte-order mark, with and without frontmatter behind it: every entry point sees the same characters
+        for o in pts[:3]:
+            for doc in ("\ufeff" + OPTION_DOC, "\ufeff---\ntitle: x\n---\n" + OPTION_DOC):
+                r = entry_points(o, d, doc=doc)
+                evals += len(r) - 1
+                for k, v in r.items():
+                    if k in ("text", "file_api:inplace.orig"):
+                        continue
+                    want = r["text"] if k != "files_api:two_inplace" else r["text"] + "\x00" + r["text"]
+                    if k == "cli:stdin+file":
+                        want = r["text"] + r["text"]
+                    if v != want:
+                        violations.append({"clause": "entry_points_agree", "entry": k, "bom": True,
+                                           "input": {kk: (vv.value if hasattr(vv, "value") else vv) for kk, vv in o.items()},
+                                           "got": v[:300], "want": want[:300]})
         for w, r1, r2, a, b, orig in auto_points(d):
             evals += 1
             if r1 != 0 or r2 != 0 or a != b or orig:
